@@ -128,7 +128,7 @@ partial def showNode (p : Path) : Node → List String
     (ch.map (showNode q)).flatten
 
 def showErr : Err → String
-  | .key => "key" | .runtime => "runtime" | .type => "type"
+  | .key => "key" | .attr => "attr" | .runtime => "runtime" | .type => "type"
 
 def parseCfg (r f p k : String) : Option Cfg :=
   match parseBool r, parseBool f, parseBool p, parseBool k with
